@@ -158,6 +158,13 @@ def check(case):
             cur = cur.__cause__ or cur.__context__
         if w is not None and (w == 0).any() and any(isinstance(x, ValueError) and "at least one non-zero" in str(x) for x in chain):
             return Outcome(["inner-estimator-refuses-all-zero-weights"], False)
+        if w is not None and (w == 0).any():
+            # ... or scikit-learn's own binner fails on the weighted table (KBinsDiscretizer with a zero weight among four rows computes
+            # zero bins and then indexes an empty array): the failure starts and ends inside scikit-learn
+            import traceback
+            tb = traceback.extract_tb(e.__traceback__)
+            if tb and "site-packages" in tb[-1].filename and "/sklearn/" in tb[-1].filename:
+                return Outcome(["scikit-learn-component-fails-on-zero-weights"], False)
         raise
     require(r is m, "fit:not-self", "", facts)
     require(np.array_equal(X, X0) and np.array_equal(y, y0) and (w is None or np.array_equal(w, w0)), "input-modified", "", facts)
